@@ -254,9 +254,14 @@ def projStartOk (iv : Option (Int × Int)) (sp : Option Nat) (f : Fib Int π) : 
 def revInner (wemp : π → Bool) (f : Fib Int π) : Fib Int (Option Nat × π) :=
   stored (rangeLoop (fun ip => wemp ip.2) none none (withPos f).reverse)
 
-/-- what the lazy fiber returned by `project` yields through its own `__iter__` (format "C",
-    default of the source): `emp`-filtered once more -/
-def project (emp wemp : π → Bool) (mk : π) (cfg : Cfg) (k m : Int) (iv : Option (Int × Int))
+/-- a traversal of a lazy fiber: `iterRange(os, oe)` (plain `__iter__`: no bounds) runs the range
+    loop over what a fresh instance of the fiber's iterator class delivers; a lazy fiber has
+    format "C" and the emptiness test of the default it was given -/
+def lazyIter {ρ : Type} (emp : ρ → Bool) (os oe : Option Int) (raw : Fib Int ρ) : Fib Int ρ :=
+  rangeLoop emp os oe raw
+
+/-- what a fresh `project_iterator` of the lazy fiber returned by `project` delivers -/
+def projectRaw (emp wemp : π → Bool) (mk : π) (cfg : Cfg) (k m : Int) (iv : Option (Int × Int))
     (sp : Option Nat) (f : Fib Int π) : Except Err (Fib Int (Option Nat × π)) :=
   -- `coord_ex, _ = next(self.iterOccupancy(tick=False))` when `len(self) > 0`
   if !f.isEmpty && (f.filter (fun x => !emp x.2)).isEmpty then .error .stopIteration
@@ -265,9 +270,14 @@ def project (emp wemp : π → Bool) (mk : π) (cfg : Cfg) (k m : Int) (iv : Opt
     if rev then
       -- `assert not fiber.isLazy()` when a start position is given
       if sp.isSome then .error .assertion
-      else .ok ((ivLoop iv (transF k m (revInner wemp f))).filter (fun x => !emp x.2.2))
+      else .ok (ivLoop iv (transF k m (revInner wemp f)))
     else if !projStartOk iv sp f then .error .assertion
-    else .ok ((ivLoop iv (transF k m (iterDefault emp mk cfg sp f))).filter (fun x => !emp x.2.2))
+    else .ok (ivLoop iv (transF k m (iterDefault emp mk cfg sp f)))
+
+/-- `for c, p in f.project(…)` (resp. `.iterRange(os, oe)` of the result) -/
+def project (emp wemp : π → Bool) (mk : π) (cfg : Cfg) (k m : Int) (iv : Option (Int × Int))
+    (sp : Option Nat) (os oe : Option Int) (f : Fib Int π) : Except Err (Fib Int (Option Nat × π)) :=
+  (projectRaw emp wemp mk cfg k m iv sp f).map (lazyIter (fun x => emp x.2) os oe)
 
 def inIv (iv : Option (Int × Int)) (c : Int) : Bool :=
   match iv with
@@ -277,34 +287,45 @@ def inIv (iv : Option (Int × Int)) (c : Int) : Bool :=
 /-- projection as defined: the fiber's non-empty payloads under the transformed coordinates,
     restricted to the interval, ascending (= reversed storage order for an order-reversing
     transform) -/
-def projectSpec (emp : π → Bool) (k m : Int) (iv : Option (Int × Int)) (f : Fib Int π) :
-    Fib Int (Option Nat × π) :=
-  let l := (transF k m (stored ((withPos f).filter (fun x => !emp x.2.2)))).filter (fun x => inIv iv x.1)
+def projectSpec (emp : π → Bool) (k m : Int) (iv : Option (Int × Int)) (os oe : Option Int)
+    (f : Fib Int π) : Fib Int (Option Nat × π) :=
+  let l := (transF k m (stored ((withPos f).filter (fun x => !emp x.2.2)))).filter
+    (fun x => inIv iv x.1 && geStart os x.1 && !geEnd oe x.1)
   if k < 0 then l.reverse else l
 
-/-- a *valid* shortcut for a projection: legal, and no skipped element belongs to the result -/
+/-- a *valid* shortcut for a projection: a legal position with nothing of the result before it —
+    with an interval, the element before it lies below the interval *in target coordinates*
+    (what the assertion in `project` is meant to say); without one, only empty elements are skipped -/
 def projValidStart (emp : π → Bool) (k m : Int) (iv : Option (Int × Int)) (sp : Nat) (f : Fib Int π) : Bool :=
-  decide (sp < f.length) && (f.take sp).all (fun x => emp x.2 || !inIv iv (k * x.1 + m))
+  decide (sp < f.length) &&
+  (match iv with
+   | none => (f.take sp).all (fun x => emp x.2)
+   | some (lo, _) => sp == 0 || (match f[sp - 1]? with
+      | some x => decide (k * x.1 + m < lo)
+      | none => false))
 
 /-- a "U" rank stores a dense array of its active range: no content outside it -/
 def withinActive (emp : π → Bool) (cfg : Cfg) (f : Fib Int π) : Bool :=
   f.all (fun x => emp x.2 || (decide ((getActive cfg f).1 ≤ x.1) && decide (x.1 < (getActive cfg f).2)))
 
-/-- `prune`: `assert start_pos < len(self.coords)`, then `trans_fn(i, c, p)` on the enumerated
-    default traversal; the result's own `__iter__` drops empties -/
-def prune (emp : π → Bool) (mk : π) (cfg : Cfg) (pred : Nat → Int → π → Bool) (sp : Option Nat)
+/-- what a fresh `prune_iterator` delivers: `assert start_pos < len(self.coords)`, then
+    `trans_fn(i, c, p)` on the enumerated default traversal -/
+def pruneRaw (emp : π → Bool) (mk : π) (cfg : Cfg) (pred : Nat → Int → π → Bool) (sp : Option Nat)
     (f : Fib Int π) : Except Err (Fib Int (Option Nat × π)) :=
   if !startLegal sp f then .error .assertion
-  else
-    let inner := (iterDefault emp mk cfg sp f).zipIdx
-    let kept := (inner.filter (fun x => pred x.2 x.1.1 x.1.2.2)).map (·.1)
-    .ok (kept.filter (fun x => !emp x.2.2))
+  else .ok ((((iterDefault emp mk cfg sp f).zipIdx).filter (fun x => pred x.2 x.1.1 x.1.2.2)).map (·.1))
+
+def prune (emp : π → Bool) (mk : π) (cfg : Cfg) (pred : Nat → Int → π → Bool) (sp : Option Nat)
+    (os oe : Option Int) (f : Fib Int π) : Except Err (Fib Int (Option Nat × π)) :=
+  (pruneRaw emp mk cfg pred sp f).map (lazyIter (fun x => emp x.2) os oe)
 
 /-- pruning as defined: the non-empty elements of the default traversal that the predicate
-    accepts; the predicate's first argument is the element's rank in that traversal -/
-def pruneSpec (emp : π → Bool) (mk : π) (cfg : Cfg) (pred : Nat → Int → π → Bool)
+    accepts (its first argument is the element's rank in that traversal), clipped to the
+    range the result is iterated with -/
+def pruneSpec (emp : π → Bool) (mk : π) (cfg : Cfg) (pred : Nat → Int → π → Bool) (os oe : Option Int)
     (f : Fib Int π) : Fib Int (Option Nat × π) :=
-  (((iterDefaultSpec emp mk cfg f).zipIdx).filter (fun x => !emp x.1.2.2 && pred x.2 x.1.1 x.1.2.2)).map (·.1)
+  (((iterDefaultSpec emp mk cfg f).zipIdx).filter
+    (fun x => !emp x.1.2.2 && pred x.2 x.1.1 x.1.2.2 && geStart os x.1.1 && !geEnd oe x.1.1)).map (·.1)
 
 end shape
 
